@@ -25,7 +25,7 @@ PROPS.update({
     "C06": {
         "tests": "^TestC06_",
         "quick": {"scale": 1.0, "timeout": 600},
-        "thorough": {"scale": 10.0, "shards": 16, "timeout": 1500, "fuzz": [("FuzzC06", 60)]},
+        "thorough": {"scale": 40.0, "shards": 16, "timeout": 1500, "fuzz": [("FuzzC06", 60)]},
         "rule": "rapid-generated JSON trees x {sha2-256, sha2-512}: hash compared with the harness' own JCS+SHA-2+multihash+base64url "
                 "(refHash); a re-spelling must validate, a single-point modification (leaf change, member/element added) must not; the "
                 "other algorithm's hash validates by its own prefix, a mislabelled digest does not; one unsupported code and one malformed "
@@ -40,7 +40,7 @@ PROPS.update({
     "C15": {
         "tests": "^TestC15_",
         "quick": {"scale": 1.0, "timeout": 600},
-        "thorough": {"scale": 8.0, "shards": 16, "timeout": 1500},
+        "thorough": {"scale": 24.0, "shards": 16, "timeout": 1500},
         "rule": "rapid: key from a deterministic pool of all five key types (incl. keys with leading-zero coordinates) x payload "
                 "(1 B..4 KiB or canonical JSON) x kid; JWS made by the library signers (3/4) or by the harness with fixed-width r||s and "
                 "optionally a leading-zero half (1/4); must verify, return the payload, and verify with crypto/ecdsa / crypto/ed25519 over "
@@ -57,7 +57,7 @@ PROPS.update({
     "C16": {
         "tests": "^TestC16_",
         "quick": {"scale": 4.0, "timeout": 600},
-        "thorough": {"scale": 40.0, "shards": 16, "timeout": 1500},
+        "thorough": {"scale": 200.0, "shards": 16, "timeout": 1500},
         "rule": "rapid: pool keys of all five types (searched keys with a leading zero byte in x and in y for every curve, over-weighted) "
                 "and fresh keys from drawn scalars/seeds; GetPublicKeyJWK must equal the harness' fixed-width encoding, read back to the "
                 "same key, and give refHash commitments / reveal values; then one modification (last-bit / random-bit change, shortened, "
@@ -71,7 +71,7 @@ PROPS.update({
     "C10": {
         "tests": "^TestC10_",
         "quick": {"scale": 1.0, "timeout": 900},
-        "thorough": {"scale": 12.0, "shards": 16, "timeout": 1800},
+        "thorough": {"scale": 60.0, "shards": 16, "timeout": 1800},
         "rule": "rapid: well-formed start document (0-4 keys, 0-3 services, also-known-as, other members; ids from a small alphabet so that "
                 "collisions are frequent) and 1-7 validated patches over all eight actions; ietf-json-patch operations are drawn over "
                 "existing / fresh / junk pointers and kept when RFC 6902 (reference evaluator) says they apply and they stay outside "
@@ -89,7 +89,7 @@ PROPS.update({
     "C11": {
         "tests": "^TestC11_",
         "quick": {"scale": 1.0, "timeout": 900},
-        "thorough": {"scale": 15.0, "shards": 16, "timeout": 1800},
+        "thorough": {"scale": 80.0, "shards": 16, "timeout": 1800},
         "rule": "rapid: document with keys, services and other members; ietf-json-patch of 1-4 operations over all six kinds whose "
                 "path and from are drawn (1/3) from a list of protected / look-alike pointers (/publicKey, /service, elements, "
                 "sub-members, '-', leading-zero indices, prefix siblings, case variants, escaped tokens, root, alsoKnownAs) and (2/3) "
@@ -108,7 +108,7 @@ PROPS.update({
     "C13": {
         "tests": "^TestC13_",
         "quick": {"scale": 1.0, "timeout": 900},
-        "thorough": {"scale": 12.0, "shards": 16, "timeout": 1800},
+        "thorough": {"scale": 50.0, "shards": 16, "timeout": 1800},
         "rule": "rapid: a valid patch of each of the seven dedicated actions (boundary-valid ids of 1/50 characters, service types "
                 "of 1/30) must validate; then exactly one labelled violation is applied (id empty/51/bad character/missing/duplicate; "
                 "key type missing/unknown; both/no key material; JWK missing or empty kty/crv/x; incomplete RSA; JsonWebKey2020 with "
@@ -126,7 +126,7 @@ PROPS.update({
     "C14": {
         "tests": "^TestC14_",
         "quick": {"scale": 1.0, "timeout": 900},
-        "thorough": {"scale": 12.0, "shards": 16, "timeout": 1800},
+        "thorough": {"scale": 30.0, "shards": 16, "timeout": 1800},
         "rule": "rapid: documents without id (non-empty key/service/also-known-as lists plus 0-4 further members named "
                 "[A-Za-z0-9_@-]+ with arbitrary JSON values) in plain or varied spelling -> PatchesFromDocument -> ApplyPatches({}) must "
                 "reproduce the document (also after each patch went through Bytes/FromBytes); every patch from the eight constructors "
@@ -142,7 +142,7 @@ PROPS.update({
     "C12": {
         "tests": "^TestC12_",
         "quick": {"scale": 1.0, "timeout": 900},
-        "thorough": {"scale": 10.0, "shards": 16, "timeout": 1800},
+        "thorough": {"scale": 30.0, "shards": 16, "timeout": 1800},
         "rule": "rapid histories: (a) 1-4 chained ApplyPatches calls, each with 1-5 validated patches and, in 1/3 of the calls, an "
                 "ietf-json-patch that validates but does not apply at a drawn position k; (b) operation histories of the C01 state "
                 "machine (valid, degraded and refused operations of every failure class). Before every call the inputs (document / "
@@ -162,7 +162,7 @@ PROPS.update({
     "C01": {
         "tests": "^TestC01_",
         "quick": {"scale": 5.0, "timeout": 900},
-        "thorough": {"scale": 40.0, "shards": 16, "timeout": 1800},
+        "thorough": {"scale": 120.0, "shards": 16, "timeout": 1800},
         "rule": "rapid stateful histories of 1-12 anchored operations (ending at the first accepted deactivate) under a drawn protocol "
                 "(multihash list [18],[19],[18,19],[19,18]; time delta 0/1/2/5/600; delta limit 1200/3000/20000; nonce size 8/16/32): "
                 "each step draws type, anchoring metadata (small and huge times/numbers, canonical and equivalent references, anchor "
@@ -186,7 +186,7 @@ PROPS.update({
     "C02": {
         "tests": "^TestC02_",
         "quick": {"scale": 2.0, "timeout": 900},
-        "thorough": {"scale": 20.0, "shards": 16, "timeout": 1800},
+        "thorough": {"scale": 60.0, "shards": 16, "timeout": 1800},
         "rule": "rapid: a created state, a valid update/recover/deactivate signed by any of the five key types (nonce optional, both hash "
                 "algorithms), then one of 28 tamperings: each signed-payload field re-encoded without re-signing, key substituted with and "
                 "without re-signing (reveal value kept), reveal value substituted or malformed, delta substituted under the unchanged signed "
@@ -205,7 +205,7 @@ PROPS.update({
     "C03": {
         "tests": "^TestC03_",
         "quick": {"scale": 2.0, "timeout": 900},
-        "thorough": {"scale": 20.0, "shards": 16, "timeout": 1800},
+        "thorough": {"scale": 60.0, "shards": 16, "timeout": 1800},
         "rule": "rapid: create requests assembled by hand (1-3 validated patches of all kinds incl. RFC-valid ietf-json-patch, optional "
                 "anchor origin string/object with large and fractional numbers and non-BMP names/list/arbitrary tree, optional type, keys "
                 "of all types with optional nonce) under multihash lists [18],[19],[18,19],[19,18] and three namespaces. Oracle: "
@@ -222,7 +222,7 @@ PROPS.update({
     "C09": {
         "tests": "^TestC09_",
         "quick": {"scale": 2.0, "timeout": 900},
-        "thorough": {"scale": 25.0, "shards": 16, "timeout": 1800},
+        "thorough": {"scale": 40.0, "shards": 16, "timeout": 1800},
         "rule": "rapid: (from, until, t) from the grid 0..6 x 0..6 x 0..9 (3/4) or around a large base with offsets -2..2 and +-delta (1/4); "
                 "maxOperationTimeDelta in {0,1,2,5,600,7200}; every other numeric protocol limit drawn independently and different from it; "
                 "update / recover / deactivate signed by any key type on a freshly created state. Oracle: effective <=> no bounds or "
@@ -242,7 +242,7 @@ PROPS.update({
     "C07": {
         "tests": "^TestC07_",
         "quick": {"scale": 2.0, "timeout": 900},
-        "thorough": {"scale": 20.0, "shards": 16, "timeout": 1800},
+        "thorough": {"scale": 60.0, "shards": 16, "timeout": 1800},
         "rule": "rapid: a valid create/update/recover/deactivate (hand-assembled; all key types, nonce sizes 1/8/16/32, both hash "
                 "algorithms, 1-3 validated patches, optional window/anchor origin/type; plain or varied JSON spelling) and a protocol in "
                 "which every limit is exactly tight for it (max operation size = input length, max delta size = canonical delta length, "
@@ -266,7 +266,7 @@ PROPS.update({
     "C04": {
         "tests": "^TestC04_",
         "quick": {"scale": 2.0, "timeout": 900},
-        "thorough": {"scale": 25.0, "shards": 16, "timeout": 1800},
+        "thorough": {"scale": 100.0, "shards": 16, "timeout": 1800},
         "rule": "rapid: (a) keys of all five types from the pool or from drawn scalars/seeds, with or without a nonce of 1/8/16/32 "
                 "bytes, both hash algorithms: reveal value, commitment and commitment-from-reveal-value compared with refHash / "
                 "hash-of-hash over the harness' own JWK encoding; a second JWK differing in exactly one member (nonce, nonce presence, x, "
@@ -285,7 +285,7 @@ PROPS.update({
     "C08": {
         "tests": "^TestC08_",
         "quick": {"scale": 1.0, "timeout": 900},
-        "thorough": {"scale": 10.0, "shards": 16, "timeout": 1800},
+        "thorough": {"scale": 20.0, "shards": 16, "timeout": 1800},
         "rule": "rapid lifecycles create -> update* -> recover -> update* -> deactivate built (a) with client.New*Request from patch "
                 "constructors or an opaque document and (b) through sidetree.Client (request bytes captured by the request function); keys of "
                 "all five types (nonces in (a)), library signers with/without kid, both hash algorithms, optional anchor origin and anchoring "
@@ -326,7 +326,7 @@ PROPS.update({
     "C18": {
         "tests": "^TestC18_",
         "quick": {"scale": 2.0, "timeout": 900},
-        "thorough": {"scale": 30.0, "shards": 16, "timeout": 1800},
+        "thorough": {"scale": 60.0, "shards": 16, "timeout": 1800},
         "rule": "rapid: internal documents of 0-5 validated keys (six types, purpose subsets, JWK or base58 material consistent with the type), "
                 "0-3 services with extra members, also-known-as; options base / method contexts / custom key-context map (incl. two types "
                 "sharing one context) / include published / unpublished; transformation info published true/false, canonical and equivalent "
@@ -348,7 +348,7 @@ PROPS.update({
     "C19": {
         "tests": "^TestC19_",
         "quick": {"scale": 3.0, "timeout": 1500},
-        "thorough": {"scale": 20.0, "shards": 16, "timeout": 2400,
+        "thorough": {"scale": 30.0, "shards": 16, "timeout": 2400,
                      "fuzz": [("FuzzC19_ParseRequest", 90), ("FuzzC19_Bytes", 90), ("FuzzC19_Patch", 90), ("FuzzC19_ResolveDID", 60), ("FuzzC19_JWS", 60)]},
         "rule": "rapid structure-aware corruption: take a valid create/update/recover/deactivate (all key types), patch of any action, "
                 "long-form DID, JWS/JWK or JSON text and apply 1-3 corruptions (any node replaced by one of 22 hostile values of another "
@@ -378,7 +378,7 @@ PROPS.update({
         "tests": "^TestC20_",
         "race": True,
         "quick": {"scale": 1.0, "timeout": 1500},
-        "thorough": {"scale": 4.0, "shards": 8, "timeout": 2400},
+        "thorough": {"scale": 6.0, "shards": 8, "timeout": 2400},
         "rule": "binary built with -race. (a) rapid workloads of 50-200 pre-generated calls on distinct inputs (parse valid / invalidated "
                 "operations, apply create / update on privately owned states, compose, transform, ResolveDocument, ProcessOperation, "
                 "VDR.Create with fixed keys, VDR.Read, canonicalize+hash; strings with control characters, astral characters and boundary "
